@@ -253,7 +253,7 @@ func (k *c06Checker) infer(t *aspenkit.ClusterTrace, cp *aspenkit.Checkpoint, ks
 
 func layerCluster(h *harness.H) {
 	h.AddRule("cluster: case = (3-4 nodes, 3-6 keys each with a writer node and a leaseholder node, fault profile, optional stop/restart of one node) run for 2-3 rounds of 4-9 unique-valued set/delete ops per key; distinct = hash of spec + per-key issue history; non-trivial = at least 2 quiescent checkpoints reached with >= 10 (node,key) comparisons")
-	n := h.N(40, 1500)
+	n := h.N(100, 3000)
 	par := runtime.GOMAXPROCS(0) / 2
 	if par < 1 {
 		par = 1
